@@ -11,7 +11,7 @@ import json
 import z3
 
 from ..arrays import FArr
-from ..core import Ctx, Inconclusive, SBool, SInt, explore
+from ..core import Ctx, Inconclusive, SBool, SInt, Unsupported, explore
 from ..fileshim import FS, stream_elem, stream_unpacked
 from ..stack import RecBlock
 from ..stream import HdrBytes, SymList, build_stream, make_fil
@@ -190,6 +190,13 @@ def harness(st, op, nbits, nchans, nfiles, none, prm):
         except (ValueError, IndexError, TypeError, ZeroDivisionError, RuntimeError, AttributeError, KeyError) as e:
             rec.err = type(e).__name__
             rec.viol.append((f"in-range-request-raised-{rec.err}", z3.BoolVal(True)))
+            return rec
+        except (OSError, NotImplementedError, AssertionError, Unsupported) as e:
+            # the (modified) library reached real I/O or something else outside the modelled subset: no symbolic trace;
+            # the path's witness is replayed on the real library instead (see check_path)
+            rec.err = type(e).__name__
+            rec.unmodelled = True
+            rec.viol.append((f"left-the-modelled-subset-{rec.err}", z3.BoolVal(True)))
             return rec
         kc = st["kc"]["kc"]
         for nm, c in kc.pre:
